@@ -8,7 +8,7 @@ CONSTANTS
   Events = {0}
   Fns = {0}
   CSerials = {0}
-  Payloads = {1}
+  Payloads = {1, 9}
   TypeIds = {301}
   Caps <- CapsOne
   MaxCookie = 3
